@@ -88,11 +88,11 @@ pub fn finders_report_pair<const NLEN: usize>() {
     }
 }
 
-inst!(c19_with_ranker_40, [props=C19+C14 tier=quick cfg=x86std+generic t=900 role=with_ranker], 42, with_ranker::<40>(0, 40, false));
+inst!(c19_with_ranker_40, [props=C19+C14+C10 tier=quick cfg=x86std+generic t=900 role=with_ranker], 42, with_ranker::<40>(0, 40, false));
 inst!(c19_new_24, [props=C19 xprops=C14 tier=quick cfg=x86std t=900 role=pair-new], 26, with_ranker::<24>(0, 24, true));
 inst!(c19_with_indices, [props=C19+C14 tier=quick cfg=x86std t=600 role=with_indices], 3, with_indices::<300>(300));
 #[cfg(any(vcfg_x86std, vcfg_x86none, vcfg_x86alloc, vcfg_x86avx2))]
 inst!(c19_finders_report_pair, [props=C19 xprops=C14 tier=quick cfg=x86std t=600 role=finders-report-pair], 9, finders_report_pair::<6>());
-inst!(c19_with_ranker_257, [props=C19+C14 tier=thorough cfg=x86std t=1800 role=with_ranker-cap uw=with_ranker:260], 3, with_ranker::<257>(257, 257, false));
-inst!(c19_with_ranker_cap, [props=C19 xprops=C14 tier=thorough cfg=x86std t=3600 role=with_ranker], 262, with_ranker::<260>(250, 260, false));
+inst!(c19_with_ranker_257, [props=C19+C14+C10 tier=thorough cfg=x86std t=1800 role=with_ranker-cap uw=with_ranker:260], 3, with_ranker::<257>(257, 257, false));
+inst!(c19_with_ranker_cap, [props=C19+C10 xprops=C14 tier=thorough cfg=x86std t=3600 role=with_ranker], 262, with_ranker::<260>(250, 260, false));
 inst!(c19_with_ranker_300, [props=C19 xprops=C14 tier=thorough cfg=x86std t=7200 role=with_ranker], 302, with_ranker::<300>(0, 300, false));
